@@ -186,8 +186,12 @@ package server
 // before, so the caller is handed its implicit withdrawal - every route of the UPDATE puts exactly one entry on
 // one of the two lists the caller gets (End-of-RIB markers on eor, everything else on paths)
 //@ func (*peer).handleUpdate
-//@   claims step
+//@   claims step at-call
 //@   loop 0 step len(paths) + len(eor) == header(len(paths) + len(eor)) + 1
+// ... "or the local cluster-id in CLUSTER_LIST": a route of an iBGP peer is only accepted after its CLUSTER_LIST
+// has been looked at (RFC 4456 8; known finding D37: the receive side never does, only filterpath on the way out
+// to RR clients)
+//@   at-call ^append(paths, path) requires isIBGPPeer ==> called(GetClusterList)
 
 // from C09: "received routes containing the local AS beyond allow-own-as ... are not used": the occurrence count runs
 // over the whole AS_PATH (it never restarts between segments), every member adds one per match with the local AS
